@@ -51,7 +51,9 @@ func (g *gen) c01check(w *world, parties []*party, where string) {
 		pendingO, pendingX := otr3.VerifSnapshot(owner.c).AkeSSID, otr3.VerifSnapshot(x.c).AkeSSID
 		// (an owner that has meanwhile ended the session or seen the peer end it has derived - and signed
 		// for - this session all the same)
-		if sx != so && !(owner.c.IsEncrypted() && (bytes.Equal(pendingO, sx[:]) || bytes.Equal(pendingX, so[:]))) && !(!owner.c.IsEncrypted() && owner.ssids[string(sx[:])]) {
+		// (an owner that has meanwhile moved on - ended the session, seen the peer end it, or replaced it
+		// by an exchange with somebody else - has derived, and signed for, this session all the same)
+		if sx != so && !(owner.c.IsEncrypted() && (bytes.Equal(pendingO, sx[:]) || bytes.Equal(pendingX, so[:]))) && !owner.ssids[string(sx[:])] {
 			olog.viol("C01", "peer-key-owner-not-in-this-exchange", fmt.Sprintf("%s: %s is encrypted and reports the key of %s, but %s derived a different session (ssid %x vs %x)", where, x.id, owner.id, owner.id, sx, so))
 		}
 		if owner.c.IsEncrypted() && sx == so {
@@ -632,6 +634,63 @@ func (g *gen) mitmScenario(w *world, version int) {
 	}
 }
 
+// A third party with a key of its own runs an honest key exchange with a victim that is in a session
+// with somebody else, and the victim's randomness source (or signing) fails at the moment it is to
+// answer the Reveal Signature message: the exchange has not completed, so the victim must go on
+// reporting the peer of the session it is in.
+func (g *gen) thirdPartyUnderFailure(w *world, idx int) {
+	version := 2 + idx%2
+	n := g.newAkeNet(w, version)
+	n.run(nil)
+	if !n.a.c.IsEncrypted() || !n.b.c.IsEncrypted() || w.dead {
+		return
+	}
+	w.tick(3600)
+	v, o := n.a, n.b
+	pol := 2
+	if version == 3 {
+		pol = 4
+	}
+	// (the third party knows the instance tag of the victim's peer: it was on the wire)
+	m := w.newParty(partyCfg{policies: pol, keyIdx: 2, errh: true, tag: otr3.VerifSnapshot(o.c).OurTag})
+	all := []*party{n.a, n.b, m}
+	q := []byte("?OTRv2?")
+	if version == 3 {
+		q = []byte("?OTRv3?")
+	}
+	_, commit, _, pan := w.recv(m, q)
+	if pan || len(commit) == 0 {
+		return
+	}
+	_, dhkey, _, pan := w.recv(v, commit[0])
+	if pan || len(dhkey) == 0 {
+		return
+	}
+	_, reveal, _, pan := w.recv(m, dhkey[0])
+	if pan || len(reveal) == 0 {
+		return
+	}
+	j := (idx / 2) % 2
+	mode := "randomness read"
+	if j == 0 {
+		v.key.failAt = v.key.calls
+		mode = "signing"
+	} else {
+		v.rnd.failAt = v.rnd.reads
+	}
+	g.dist["ake:third-party-under-failure:"+mode]++
+	_, _, err, pan := w.recv(v, reveal[0])
+	v.rnd.failAt, v.key.failAt = -1, -1
+	if pan {
+		olog.viol("C13", "receive-panics", "Receive panicked on a Reveal Signature message while the randomness source failed")
+		return
+	}
+	where := fmt.Sprintf("OTRv%d: after a third party's Reveal Signature message whose answer failed (%s, offset %d, err=%v)", version, mode, j, err)
+	g.c01check(w, all, where)
+	g.c01probe(w, n.a, n.b)
+	g.c01check(w, all, where+", then traffic")
+}
+
 func init() {
 	profiles["ake"] = func(seed int64, n int, out *emitter, extra map[string]interface{}) map[string]int {
 		g := &gen{r: rand.New(rand.NewSource(seed)), out: out, dist: map[string]int{}}
@@ -653,6 +712,10 @@ func init() {
 			}
 			if i%12 == 7 {
 				g.delayedDisconnectScenario(w)
+				continue
+			}
+			if i%12 == 10 {
+				g.thirdPartyUnderFailure(w, i/12)
 				continue
 			}
 			if rec := g.akeScenario(w, recorded); rec != nil && len(rec) >= 4 {
